@@ -20,6 +20,7 @@ type Violation struct {
 type fact struct {
 	e   Applied
 	src string
+	ct  uint64 // lowest term of a server reporting it committed (0 = unknown)
 }
 
 type fsmStream struct {
@@ -53,6 +54,7 @@ type Monitors struct {
 	notify       map[[2]int][]bool
 	leadGains    map[[2]int]int
 	storedIDs    map[string]bool // payload ids ever stored on any server
+	taint        string
 }
 
 func newMonitors(w *World) *Monitors {
@@ -61,8 +63,23 @@ func newMonitors(w *World) *Monitors {
 		storedIDs: map[string]bool{}}
 }
 
+// rootCause records a violation that is the origin of others: every later
+// violation of the execution carries "+after:<sig>" in its signature, so that a
+// listed known finding never hides an unrelated violation of the same kind.
+func (m *Monitors) rootCause(props []string, sig, f string, a ...any) {
+	if m.taint == "" {
+		for _, p := range props {
+			m.fail(p, sig, f, a...)
+		}
+		m.taint = sig
+	}
+}
+
 func (m *Monitors) fail(prop, sig, f string, a ...any) {
 	msg := fmt.Sprintf(f, a...)
+	if m.taint != "" {
+		sig += "+after:" + m.taint
+	}
 	for _, v := range m.viol {
 		if v.Prop == prop && v.Sig == sig {
 			return
@@ -77,14 +94,18 @@ func appliedOf(l *raft.Log) Applied {
 }
 
 // commitFact records that index e.Index is committed with content e.
-func (m *Monitors) commitFact(e Applied, src string) {
+func (m *Monitors) commitFact(e Applied, src string, term uint64) {
 	if f, ok := m.agreed[e.Index]; ok {
 		if f.e != e {
 			m.fail("C03", "committed-facts-disagree", "index %d committed as %v (%s) and as %v (%s)", e.Index, f.e, f.src, e, src)
 		}
+		if term != 0 && (f.ct == 0 || term < f.ct) {
+			f.ct = term
+			m.agreed[e.Index] = f
+		}
 		return
 	}
-	m.agreed[e.Index] = fact{e, src}
+	m.agreed[e.Index] = fact{e, src, term}
 	if e.Index > m.maxCommitted {
 		m.maxCommitted = e.Index
 	}
@@ -92,6 +113,9 @@ func (m *Monitors) commitFact(e Applied, src string) {
 
 // covered reports whether node's durable state holds committed entry f (log or snapshot).
 func (m *Monitors) holds(n *Node, f fact) (bool, string) {
+	if s := n.snaps.Newest(); s != nil && s.meta.Index >= f.e.Index {
+		return true, ""
+	}
 	if l := n.store.Peek(f.e.Index); l != nil {
 		if appliedOf(l) == f.e {
 			return true, ""
@@ -226,9 +250,17 @@ func (m *Monitors) OnObservation(node, inc int, o *raft.Observation) {
 }
 
 func (m *Monitors) checkLeaderCompleteness(n *Node, when string) {
+	if n.r == nil {
+		return
+	}
+	term := n.r.CurrentTerm()
 	for i := uint64(1); i <= m.maxCommitted; i++ {
 		f, ok := m.agreed[i]
 		if !ok {
+			continue
+		}
+		// a deposed leader of an older term that has not noticed yet is not a leader "afterwards"
+		if f.ct == 0 || term < f.ct {
 			continue
 		}
 		if ok2, why := m.holds(n, f); !ok2 {
@@ -252,6 +284,22 @@ func termOfReq(req any) (uint64, bool) {
 }
 
 func (m *Monitors) OnSend(msg *Msg) {
+	if ae, ok := msg.Req.(*raft.AppendEntriesRequest); ok {
+		// root cause of the stale-suffix defect: a leader replicates, as part of its log, an entry at or
+		// below its own snapshot index that is not the committed entry of that index
+		n := m.w.nodes[msg.From]
+		if sn := n.snaps.Newest(); sn != nil {
+			for _, e := range ae.Entries {
+				if e.Index <= sn.meta.Index {
+					if f, ok := m.agreed[e.Index]; ok && f.e != appliedOf(e) {
+						m.rootCause([]string{"C02", "C03", "C04"}, "stale-entry-below-own-snapshot-replicated",
+							"leader n%d (snapshot at %d) sends %v from its log although index %d was committed as %v: log entries left over below an installed snapshot are served as history", msg.From, sn.meta.Index, appliedOf(e), e.Index, f.e)
+						break
+					}
+				}
+			}
+		}
+	}
 	if t, ok := termOfReq(msg.Req); ok {
 		if prev, ok := m.senders[t]; ok && prev != msg.From {
 			m.fail("C01", "two-senders-one-term", "n%d and n%d both sent %s as leader of term %d", prev, msg.From, msg.Kind, t)
@@ -356,7 +404,7 @@ func (m *Monitors) OnDeleteRange(node int, min, max uint64, removed []*raft.Log)
 			if l.Index <= snapIdx {
 				continue
 			}
-			if f, ok := m.agreed[l.Index]; ok {
+			if f, ok := m.agreed[l.Index]; ok && f.e == appliedOf(l) {
 				m.fail("C03", "committed-truncated", "n%d truncates committed entry %v (DeleteRange %d..%d)", node, f.e, min, max)
 				break
 			}
@@ -411,7 +459,13 @@ func (m *Monitors) OnApply(node, inc int, a Applied, batch bool) {
 	}
 	s.last = a.Index
 	s.started = true
-	m.commitFactFSM(a, fmt.Sprintf("FSM n%d.%d", node, inc))
+	var term uint64
+	if n.r != nil {
+		term = n.r.CurrentTerm()
+	} else {
+		term = n.store.kvU["CurrentTerm"]
+	}
+	m.commitFactFSM(a, fmt.Sprintf("FSM n%d.%d", node, inc), term)
 	// nothing uncommitted reaches an FSM: the entry must be durable on the server itself
 	if l := n.store.Peek(a.Index); l == nil || appliedOf(l) != a {
 		if sn := n.snaps.Newest(); sn == nil || sn.meta.Index < a.Index {
@@ -420,12 +474,12 @@ func (m *Monitors) OnApply(node, inc int, a Applied, batch bool) {
 	}
 }
 
-func (m *Monitors) commitFactFSM(a Applied, src string) {
+func (m *Monitors) commitFactFSM(a Applied, src string, term uint64) {
 	if f, ok := m.agreed[a.Index]; ok && f.e != a {
 		m.fail("C02", "fsm-streams-disagree", "index %d: %s given %v but %s had %v", a.Index, src, a, f.src, f.e)
 		return
 	}
-	m.commitFact(a, src)
+	m.commitFact(a, src, term)
 }
 
 func (m *Monitors) fsmSees(t raft.LogType) bool {
@@ -497,7 +551,11 @@ func (m *Monitors) OnReturn(c *Call) {
 			if string(l.Data) != c.Payload || l.Type != raft.LogCommand {
 				m.fail("C08", "ack-index-wrong-entry", "call%d (%s) acknowledged at index %d but the entry there is %v", c.ID, c.Payload, c.Index, appliedOf(l))
 			}
-			m.commitFact(appliedOf(l), fmt.Sprintf("ack call%d on n%d", c.ID, c.Node))
+			var term uint64
+			if n.r != nil {
+				term = n.r.CurrentTerm()
+			}
+			m.commitFact(appliedOf(l), fmt.Sprintf("ack call%d on n%d", c.ID, c.Node), term)
 		}
 		if r, ok := c.Resp.(FSMResp); !ok || r.Index != c.Index || r.Data != c.Payload {
 			m.fail("C08", "response-mispaired", "call%d (%s@%d) got response %v", c.ID, c.Payload, c.Index, c.Resp)
@@ -550,9 +608,16 @@ func (m *Monitors) AtQuiescent() {
 			if isLeader {
 				m.checkLeaderCommit(n, ci)
 			}
+			var snapIdx uint64
+			if sn := n.snaps.Newest(); sn != nil {
+				snapIdx = sn.meta.Index
+			}
 			for i := m.lastCommit[k] + 1; i <= ci; i++ {
+				if i <= snapIdx {
+					continue // superseded by the server's snapshot; whatever the log still holds there is not its state
+				}
 				if l := n.store.Peek(i); l != nil {
-					m.commitFact(appliedOf(l), fmt.Sprintf("CommitIndex n%d.%d=%d", n.id, n.inc, ci))
+					m.commitFact(appliedOf(l), fmt.Sprintf("CommitIndex n%d.%d=%d", n.id, n.inc, ci), r.CurrentTerm())
 				}
 			}
 			m.lastCommit[k] = ci
@@ -594,8 +659,44 @@ func (m *Monitors) checkLeaderCommit(n *Node, ci uint64) {
 		}
 	}
 	if have*2 <= voters {
+		if l.Type == raft.LogConfiguration && d.LatestIndex == ci {
+			// would the previous configuration's voters have been enough?
+			prev := m.prevConfiguration(n, ci)
+			pv, ph := 0, 0
+			for _, s := range prev.Servers {
+				if s.Suffrage != raft.Voter {
+					continue
+				}
+				pv++
+				o := m.w.nodes[m.w.nodeByAddr(s.Address)]
+				if ol := o.store.Peek(ci); ol != nil && appliedOf(ol) == appliedOf(l) {
+					ph++
+				}
+			}
+			if pv > 0 && ph*2 > pv {
+				m.fail("C05", "new-configuration-committed-by-previous-configuration-majority", "leader n%d reports configuration entry %d committed with %d of %d voters of the NEW configuration (%v) holding it; only the previous configuration's majority (%d of %d) does", n.id, ci, have, voters, holders, ph, pv)
+				return
+			}
+		}
 		m.fail("C05", "commit-without-voter-majority", "leader n%d reports commit %d but only %d of %d voters (%v) durably hold that entry", n.id, ci, have, voters, holders)
 	}
+}
+
+// prevConfiguration returns the configuration in n's durable state just before index idx.
+func (m *Monitors) prevConfiguration(n *Node, idx uint64) raft.Configuration {
+	var cfg raft.Configuration
+	if s := n.snaps.Newest(); s != nil && s.meta.Index < idx {
+		cfg = s.meta.Configuration
+	}
+	for _, i := range n.store.Indexes() {
+		if i >= idx {
+			break
+		}
+		if l := n.store.Peek(i); l.Type == raft.LogConfiguration {
+			cfg = raft.DecodeConfiguration(l.Data)
+		}
+	}
+	return cfg
 }
 
 // checkLogs: C04 log matching over durable logs, C07 at most one uncommitted configuration, C11 contiguity.
@@ -611,6 +712,9 @@ func (m *Monitors) checkLogs() {
 		}
 		for k, i := range idx {
 			l := n.store.Peek(i)
+			if i <= snapIdx {
+				continue // below the snapshot: not part of the log proper
+			}
 			if l.Term < prevT {
 				m.fail("C04", "terms-decrease", "n%d log term decreases at index %d (%d after %d)", n.id, i, l.Term, prevT)
 			}
@@ -633,7 +737,18 @@ func (m *Monitors) checkLogs() {
 	for a := 0; a < len(w.nodes); a++ {
 		for b := a + 1; b < len(w.nodes); b++ {
 			na, nb := w.nodes[a], w.nodes[b]
-			ia := na.store.Indexes()
+			var floor uint64
+			for _, x := range []*Node{na, nb} {
+				if sn := x.snaps.Newest(); sn != nil && sn.meta.Index > floor {
+					floor = sn.meta.Index
+				}
+			}
+			var ia []uint64
+			for _, i := range na.store.Indexes() {
+				if i > floor {
+					ia = append(ia, i)
+				}
+			}
 			// highest common index with equal term
 			var top uint64
 			for k := len(ia) - 1; k >= 0; k-- {
@@ -730,4 +845,20 @@ func (m *Monitors) outcome() string {
 	sort.Strings(vs)
 	sb.WriteString(strings.Join(vs, ","))
 	return sb.String()
+}
+
+var globalKnown *KnownFindings
+
+// unknownViolations counts violations that are not listed known findings.
+func (m *Monitors) unknownViolations() int {
+	if globalKnown == nil {
+		globalKnown = loadKnown(verifDir())
+	}
+	n := 0
+	for _, v := range m.viol {
+		if !globalKnown.Matches(v) {
+			n++
+		}
+	}
+	return n
 }
